@@ -175,6 +175,10 @@ func (am *AppMapper) mapResponse(stmt []*sysl.Statement, appName string) map[str
 			returnType = am.mapReturnType(stmt[i].GetRet().Payload, appName)
 			// Default return name of 200
 			returnName = "200"
+			// `return 404`, `return error`: a status without a payload type
+			if returnType == nil {
+				returnName = stmt[i].GetRet().Payload
+			}
 		}
 
 		responseTypes[returnName] = &Parameter{
